@@ -14,7 +14,7 @@ The policy operation language covers every public method of every policy: push, 
 (every line), statistics (every line), `DeadlineQueue.purge_expired`, and the read-only accessors
 (`count_expired`/`count_valid`, `get_flow_depth`/`flow_count`/`get_flow_weight`, `is_congested`).
 
-Lean side: `HappyModel/C08/*`, theorems `HappyProofs/C08/Props.lean`, `HappyProofs/C08/IndusProps.lean`.
+Lean side: `HappyModel/C08/*`, theorems `HappyProofs/C08/Props.lean`, `HappyProofs/C08/IndusProps.lean`, `HappyProofs/C08/IndusStrand{,B}.lean`.
 """
 from __future__ import annotations
 
@@ -220,8 +220,8 @@ def op_line(cfg, op):
 class C08(core.Property):
     id = "C08"
     driver = "drv-c08"
-    lake_targets = ["HappyProofs.C08.Props", "HappyProofs.C08.IndusProps", "drv-c08"]
-    audit_imports = ["HappyProofs.C08.Props", "HappyProofs.C08.IndusProps"]
+    lake_targets = ["HappyProofs.C08.Props", "HappyProofs.C08.IndusProps", "HappyProofs.C08.IndusStrandB", "drv-c08"]
+    audit_imports = ["HappyProofs.C08.Props", "HappyProofs.C08.IndusProps", "HappyProofs.C08.IndusStrandB"]
     lean_files = ["HappyModel/C08/*.lean", "HappyProofs/C08/*.lean", "HappyModel/Proto.lean", "Driver/C08.lean"]
     theorems = []
     quick_cases = 2400
